@@ -33,6 +33,24 @@ CHECKS = {
     "C13": dict(cat="exploration", ref="DESIGN.md §6 C13",
         tech="deterministic simulation: wire tap on client output decoded by an independent parser/verifier across all explored histories",
         text="Every packet the client emits along the explored histories is parsed and verified independently: class/method as asked, fresh transaction id, application attributes (one per type, first-insertion order, last value) first, then only the mechanism's credential attributes, then at most one MI, one MI-SHA256 and one FINGERPRINT in that order, each verifying; no type twice; every retransmission byte-identical."),
+    "C15": dict(cat="exploration", ref="DESIGN.md §6 C15",
+        tech="deterministic simulation with discrete-event clock: long seeded transaction histories with delays, retransmissions and idle gaps around 600 s, compared with a double-precision RFC 6298 reference",
+        text="Histories of up to 120 transactions per run on unreliable transport, with response delays from microseconds to beyond the first retransmission, transactions completed by 401/Retry, idle gaps, stalls and the exact 600 s boundary; after every send and every response the client's RTO (read through the H2 snapshot, and through the public API whenever a request is sent while nothing else is outstanding) must equal an f64 RFC 6298 reference (alpha 1/8, beta 1/4, K 4, granularity, Karn's rule, staleness) within 1e-5 relative + 1 us."),
+    "C16": dict(cat="exploration", ref="DESIGN.md §6 C16",
+        tech="deterministic simulation of the stream transport: seeded segmentation schedules fed to the real StunPacketDecoder, compared call by call with an independent model; exhaustive 1-/2-cut sweep of small streams",
+        text="The byte stream server->client (1-3 generated packets, zero-length messages and optionally one damaged header included) is cut by the simulated stream network into chunks (empty, one byte, inside a first or later header, spanning packets) under two seeded chunkings per run and fed to the controller's read loop around the real decoder with buffer sizes around the packet size; every call's result (packet bytes, consumed count, MoreBytesNeeded(None/Some(n)), error kind/size/consumed/buffer) must equal an independent model; both chunkings must yield the same packets. Systematic part: every 1- and 2-cut chunking of generated streams up to 110 / 300 bytes."),
+    "C17": dict(cat="exploration", ref="DESIGN.md §6 C17",
+        tech="deterministic simulation with exact re-execution: twin run of the same plan with the rejected deliveries turned into drops; abstract histories compared step by step (metamorphic, public API only)",
+        text="Buffers of every rejected kind (undecodable, request class, unknown id, finished id, bad/missing fingerprint, failed authentication to be ignored, refused indication, indications carrying an outstanding id) land at arbitrary positions of otherwise ordinary histories. A rejected call must produce no event; then the very same plan is executed again with exactly those deliveries dropped and both abstract histories (transactions renamed by creation order, MAC/CRC values blanked) must agree step by step - same packets, timers and durations, outcomes, capacity and late-response probes - except for the documented ProtectionViolated-instead-of-TimedOut marker."),
+    "C03": dict(cat="exploration", ref="DESIGN.md §6 C03",
+        tech="deterministic simulation: hostile peer + mutating network against clients in mid-conversation, catch_unwind around every call, wire tap through all 16 decoder configurations, stream reassembler and twin run",
+        text="Structure-aware faults are applied to valid in-flight messages addressed to outstanding transactions (bit/byte flips, truncation, extension, header/attribute/nested length edits, multi-byte UTF-8 and quoting characters injected into string attributes, spliced attributes), a hostile server personality sends strings placed around the nonce-cookie offsets, and random / STUN-like bytes are injected, while the client is in every credential state reachable in a few operations. No call may panic; every hostile datagram is additionally decoded in all 16 configurations (reported size = 20 + header length <= input, result independent of trailing bytes), passed to get_input_text and to StunPacketDecoder in a seeded chunking; rejected hostile buffers are removed in a twin run to show the client stayed usable."),
+    "C04": dict(cat="fault_enumeration", ref="DESIGN.md §6 C04",
+        tech="deterministic simulation of authenticated traffic over a corrupting channel + systematic enumeration of every single-bit fault over protected prefix and MAC of sampled in-flight messages, real vs independent verifier",
+        text="Authenticated traffic between the real client and the reference server (short-term; long-term MD5 and SHA-256 keys; every legal tail) is harvested from simulated conversations. For each sampled message whose MAC equals the independently computed HMAC under the independently derived key: the untampered message must be accepted by decode(with_key, with_validation) and by validate(get_input_text); a key derived from a password one character off must be rejected; then every single-bit fault in every byte of the protected prefix (except the two header-length bytes) and of the MAC is applied in turn and must never be accepted as authenticated. Along the conversations themselves the client's accept/reject decisions are compared with the independent verifier."),
+    "C09": dict(cat="exploration", ref="DESIGN.md §6 C09",
+        tech="deterministic simulation with on-path attribute-splice faults; wire tap compares every decoder configuration with an independent 3-flag admission automaton; systematic sweep of all suffixes up to length 3/4 per base tail",
+        text="The rule exists so that attributes injected after the integrity/FINGERPRINT of a valid message by anything on the path have no effect; that fault is what is simulated. Spliced suffixes (ordinary, unknown, MI, MI-SHA256, FINGERPRINT, each with right or wrong checksum) are appended to valid in-flight messages with every base tail; the decoded attribute list under all 16 configurations, the validation verdict and what the client delivers are compared with an independent admission automaton; all 32 (state, next kind) pairs must be visited. The exhaustive 87,380-sequence enumeration of the property's quantifier is bounded enumeration of inputs (another technique) and is not claimed; suffixes up to length 4 per base tail are swept."),
 }
 
 NOT_APPLICABLE = {
@@ -42,18 +60,7 @@ NOT_APPLICABLE = {
     "C18": "relations between results of one pure function under different option values on the same input; nothing to schedule or inject",
     "C19": "public constructors/accessors/mutators of value types in short sequential call sequences; no clock, I/O, fault or concurrency (all mutators take &mut self)",
 }
-PENDING = {
-    "C03": "check not built yet (planned: hostile peer + mutating network, DESIGN.md §6 C03)",
-    "C04": "check not built yet (planned: authenticated traffic over a corrupting channel, DESIGN.md §6 C04)",
-    "C07": "check not built yet (planned: short-term personalities, DESIGN.md §6 C07)",
-    "C08": "check not built yet (planned: long-term conversations vs strict server predicate, DESIGN.md §6 C08)",
-    "C09": "check not built yet (planned: on-path splice faults + wire tap, DESIGN.md §6 C09)",
-    "C10": "check not built yet (planned: bit/byte faults on in-flight packets + client enforcement, DESIGN.md §6 C10)",
-    "C13": "check not built yet (planned: wire tap on client output, DESIGN.md §6 C13)",
-    "C15": "check not built yet (planned: long RTT histories vs f64 reference, DESIGN.md §6 C15)",
-    "C16": "check not built yet (planned: stream segmentation schedules, DESIGN.md §6 C16)",
-    "C17": "check not built yet (planned: twin-run metamorphic check, DESIGN.md §6 C17)",
-}
+PENDING = {}
 
 def hook_commits():
     try:
